@@ -16,14 +16,26 @@
   (`decode_encode_*`), under `ParamsOK` (pairwise coprime moduli `> 1` coprime to `t`, `N = n·g`, `2(t−1) < Q`; at
   level > 0 the size conditions follow from the `t ≤ Q[0]` check of `bgv.NewParameters`, `size_of_level_pos`).
 
-  NOT done (named gap): `encode_mul` is proved in the plaintext ring `Z_t[Y]/(Y^n+1)` (`⊛ = RPoly.rowMul t`); the same
-  statement for the lifted plaintexts in `R_Q` (product in `R_Q`, multiplication by `T`, `RingQ2T` — which needs the
-  no-wrap bound `n·t² ≲ Q/2` on the integer product) is the harness probe `encode_mul` only.
+  "Encoded plaintexts multiply slot-wise" is proved in the plaintext ring `Z_t[Y]/(Y^n+1)` (`encode_mul`, `⊛ = RPoly.rowMul t`)
+  AND for the plaintexts `Encode` produces in `R_Q` (`encode_mul_RQ`: product of `R_Q`, times `T`, `Decode`; every level and gap)
+  under the no-wrap bound `2·n·(t−1)² + 1 < Q` (`ringQ2T_mul`); without that bound the integer product wraps modulo `Q` and the
+  statement is false (the harness probe `encode_mul` only runs levels where it holds).
+
+  `Embed` / `EmbedScale` (the representation handed to linear transformations / polynomial evaluation): canonical rows are
+  `embed` / `embedP` (tied, all four (IsNTT, IsMontgomery) combinations, ring.Poly and ringqp.Poly Q and P parts);
+  `embed_scaleUp_eq_encode`, `embedScale_qp_same_integer` + `embedScale_qp_lift` (fix C07-5: Q and P parts are residues of ONE
+  integer polynomial, a lift of `T⁻¹·m`), `embed_qp_plain`.  That NTT / ·2^64 are applied according to the metadata is the
+  probes `embed_metadata`, `embed_mont_mul` and the tie (the harness undoes them per the metadata), not a theorem.
+
+  NOT covered: float-free but size-dependent behaviour of `ring.ModUpExact` near ±Q/2 (modelled exact; probe `modupexact_zone`);
+  known finding C07-bgv-level0-t-above-half-q0 (`t ≤ Q[0]` accepted although level-0 decoding needs `2(t−1) < Q[0]`:
+  `level0_large_t_counterexample`).
 -/
 import Lattigo.Proofs.EncoderT
 import Lattigo.Proofs.EncoderTPerm
 import Lattigo.Proofs.EncoderTRound
 import Lattigo.Proofs.EncoderTMul
+import Lattigo.Proofs.EncoderTMulQ
 import Lattigo.Props.C01NTT
 import Lattigo.Props.C07CKKS
 import Lattigo.Props.C07Ring
@@ -287,6 +299,80 @@ theorem embed_scaleUp_eq_encode (P : Params) (scale : Nat) (vals : Vals) :
     embed P P.qs true scale vals = encode P true scale vals := by
   cases vals <;> rfl
 
+/-! ### the product of two plaintexts in `R_Q` -/
+
+/-- **ringQ2T_mul.**  Reduced plaintext polynomials `p₁, p₂ ∈ Z_t[Y]/(Y^n+1)` lifted to `R_Q` by `RingT2Q` (gap
+    `g`, times `T⁻¹ mod Q`): `RingQ2T(T·(lift p₁ · lift p₂)) = p₁ ⊛ p₂ (mod t)`, for every level and gap, provided the
+    integer negacyclic product does not wrap modulo `Q`: `2·n·(t−1)² + 1 < Q`. -/
+theorem ringQ2T_mul (qs : List ℕ) (t n g : ℕ) (pa pb : List ℕ) (hne : qs ≠ [])
+    (hc : qs.Pairwise Nat.Coprime) (h1 : ∀ q ∈ qs, 1 < q) (hct : ∀ q ∈ qs, Nat.Coprime t q)
+    (ht : 0 < t) (hn : 0 < n) (hg : 0 < g) (hal : pa.length = n) (hbl : pb.length = n)
+    (ha : ∀ e ∈ pa, e < t) (hb : ∀ e ∈ pb, e < t)
+    (hB : 2 * (n * ((t - 1) * (t - 1))) + 1 < RPoly.prod qs) :
+    ringQ2T t n (RPoly.scale (ringT2Q qs t (n * g) true pa * ringT2Q qs t (n * g) true pb) t)
+      = RPoly.rowMul t pa pb :=
+  Lattigo.EncoderT.ringQ2T_mul qs t n g pa pb hne hc h1 hct ht hn hg hal hbl ha hb hB
+
+/-- **encode_mul_RQ** (the clause "encoded plaintexts multiply slot-wise", on the plaintexts the library produces).
+    `Encode` two vectors at scales `s₁`, `s₂` into `a, b ∈ R_Q` (any level / gap satisfying `ParamsOK`); `Decode` at a
+    scale `s ≡ s₁s₂ (mod t)`, `t ∤ s`, of `T·(a·b)` — product of `R_Q`, one factor `T` for the second `T⁻¹` — returns
+    the slot-wise product, zero where either vector is unspecified; hypothesis: `2·n·(t−1)² + 1 < Q` (no wrap). -/
+theorem encode_mul_RQ (P : Params) (K g : ℕ) (h : ParamsOK P K g)
+    (hinv : NTT.TableInv (NTT.rho P.T.q P.T.rootsF) (2 ^ K))
+    (hB : 2 * (P.T.n * ((P.T.q - 1) * (P.T.q - 1))) + 1 < RPoly.prod P.qs)
+    (u v : List ℕ) (su sv s len : ℕ) (a b : RPoly)
+    (hs : s % P.T.q = su * sv % P.T.q) (hsd : ¬ P.T.q ∣ s) (hlen : len ≤ P.T.n)
+    (henca : encode P true su (.u u) = some a) (hencb : encode P true sv (.u v) = some b) :
+    decodeU P true s (RPoly.scale (a * b) P.T.q) len
+      = (List.zipWith (fun x y => x * y % P.T.q)
+          ((u.map (· % P.T.q)) ++ List.replicate (P.T.n - u.length) 0)
+          ((v.map (· % P.T.q)) ++ List.replicate (P.T.n - v.length) 0)).take len :=
+  Lattigo.EncoderT.encode_mul_RQ P K g h hinv hB u v su sv s len a b hs hsd hlen henca hencb
+
+/-! ### `EmbedScale` into a `ringqp.Poly`: the Q part and the P part hold the same integers (fix C07-5) -/
+
+/-- **embedScale_qp_same_integer.**  With `scaleUp`, every row of the Q part (`RingT2Q`) and of the P part
+    (`ringT2P`) is the residue of ONE integer polynomial `X = gapEmbed(p)·(T⁻¹ mod Q_level)`: the pair is an element
+    of `R_QP` (before the fix the P part used the moduli and the inverse of `Q`). -/
+theorem embedScale_qp_same_integer (qs ps : List ℕ) (t N : ℕ) (p : List ℕ) :
+    (ringT2Q qs t N true p).c
+      = qs.map (fun q => ((gapEmbed (N / p.length) N p).map
+          (· * RPoly.modInv (t % RPoly.prod qs) (RPoly.prod qs))).map (· % q))
+    ∧ (ringT2P qs ps t N true p).c
+      = ps.map (fun m => ((gapEmbed (N / p.length) N p).map
+          (· * RPoly.modInv (t % RPoly.prod qs) (RPoly.prod qs))).map (· % m)) := by
+  unfold ringT2Q ringT2P
+  simp only [if_true, List.map_map]
+  refine ⟨?_, ?_⟩ <;>
+  · apply List.map_congr_left
+    intro m _
+    apply List.map_congr_left
+    intro x _
+    simp only [Function.comp, Nat.mul_mod_mod]
+
+/-- … and that integer polynomial is a lift of `T⁻¹·m`: `T·X ≡ gapEmbed(p) (mod Q_level)` coefficient-wise -/
+theorem embedScale_qp_lift (qs : List ℕ) (t : ℕ) (hne : qs ≠ []) (h1 : ∀ q ∈ qs, 1 < q)
+    (hct : ∀ q ∈ qs, Nat.Coprime t q) (x : ℕ) :
+    (t * (x * RPoly.modInv (t % RPoly.prod qs) (RPoly.prod qs))) % RPoly.prod qs = x % RPoly.prod qs := by
+  have hQ1 := rprod_gt_one qs hne h1
+  have hcop : Nat.Coprime (t % RPoly.prod qs) (RPoly.prod qs) := by
+    show Nat.gcd (t % RPoly.prod qs) (RPoly.prod qs) = 1
+    rw [← Nat.gcd_rec, Nat.gcd_comm, rprod_eq]
+    exact Nat.coprime_list_prod_right_iff.mpr hct
+  have hinv := Lattigo.EncoderT.modInv_spec (t % RPoly.prod qs) (RPoly.prod qs) hQ1 hcop
+  have e : t * (x * RPoly.modInv (t % RPoly.prod qs) (RPoly.prod qs))
+      = x * (t * RPoly.modInv (t % RPoly.prod qs) (RPoly.prod qs)) := by ring
+  have h2 : t * RPoly.modInv (t % RPoly.prod qs) (RPoly.prod qs) % RPoly.prod qs = 1 := by
+    rw [← Nat.mod_mul_mod]; exact hinv
+  rw [e, Nat.mul_mod, h2, Nat.mul_one, Nat.mod_mod]
+
+/-- without `scaleUp` (`Embed`) both parts are the plain residues of the gap embedding -/
+theorem embed_qp_plain (qs ps : List ℕ) (t N : ℕ) (p : List ℕ) :
+    (ringT2Q qs t N false p).c = qs.map (fun q => (gapEmbed (N / p.length) N p).map (· % q))
+    ∧ (ringT2P qs ps t N false p).c = ps.map (fun m => (gapEmbed (N / p.length) N p).map (· % m)) := by
+  unfold ringT2Q ringT2P
+  simp
+
 /-! ### non-vacuity / concrete instances -/
 
 /-- `n = 8`, `t = 17`, `ψ` from `g = 3`: the generated tables satisfy `Valid` and the table invariant -/
@@ -330,6 +416,28 @@ example : (encode P8 true 5 (.u [3, 20, 16])).map (fun a => decodeU P8 true 5 a 
       = some [3, 3, 16, 0, 0, 0, 0, 0] := by
   decide +kernel
 
+/-- `encode_mul_RQ` on `P8` (`n = 8`, `t = 17`, `Q = 97·193 = 18721 > 2·8·16² + 1`, gap 2): an instance obtained
+    FROM THE THEOREM, hypotheses discharged (`s = 5 ≡ 6·15`) -/
+def a8 : RPoly := (encode P8 true 6 (.u [3, 20, 16])).getD default
+def b8 : RPoly := (encode P8 true 15 (.u [2, 5, 16, 7])).getD default
+
+example : decodeU P8 true 5 (RPoly.scale (a8 * b8) 17) 8
+    = (List.zipWith (fun x y => x * y % 17)
+        (([3, 20, 16] : List ℕ).map (· % 17) ++ List.replicate (8 - 3) 0)
+        (([2, 5, 16, 7] : List ℕ).map (· % 17) ++ List.replicate (8 - 4) 0)).take 8 :=
+  encode_mul_RQ P8 3 2
+    (paramsOK_mk P8 3 2 (by decide) T8_valid.1 rfl (by decide) (by decide) (by decide) (by decide) (by decide)
+      (by decide) (by decide) (by decide))
+    T8_valid.2 (by decide) [3, 20, 16] [2, 5, 16, 7] 6 15 5 8 a8 b8 (by decide) (by decide) (by decide)
+    (by decide +kernel) (by decide +kernel)
+
+/-- TEST (evaluation): the decoded product, and the Q / P parts of `EmbedScale(scaleUp)` for `P = [257]` -/
+example : decodeU P8 true 5 (RPoly.scale (a8 * b8) 17) 8 = [6, 15, 1, 0, 0, 0, 0, 0]
+    ∧ ((embedP P8 [257] true 5 (.u [3, 20, 16])).map (·.c))
+        = ((encodeRingTU T8 (permuteMatrix 3) [3, 20, 16] 5 (List.replicate 8 0)).map fun p =>
+            [(gapEmbed 2 16 p).map (· * RPoly.modInv (17 % 18721) 18721 % 257)]) := by
+  decide +kernel
+
 /-- a 16-bit instance of the hypotheses: the Fermat prime `65537`, `n = 16` -/
 example : NTT.Valid (NTT.mkTables (2 ^ 4) 65537 (2 ^ 5) 3) 4 :=
   (Lattigo.Props.C01NTT.tables_invariant 4 65537 3 (by norm_num) (by decide) (by decide) (by decide +kernel)).1
@@ -362,6 +470,11 @@ end Lattigo.EncoderT.C07
 #print axioms Lattigo.EncoderT.C07.decode_signed_boundary
 #print axioms Lattigo.EncoderT.C07.encode_signed
 #print axioms Lattigo.EncoderT.C07.embed_scaleUp_eq_encode
+#print axioms Lattigo.EncoderT.C07.ringQ2T_mul
+#print axioms Lattigo.EncoderT.C07.encode_mul_RQ
+#print axioms Lattigo.EncoderT.C07.embedScale_qp_same_integer
+#print axioms Lattigo.EncoderT.C07.embedScale_qp_lift
+#print axioms Lattigo.EncoderT.C07.embed_qp_plain
 #print axioms Lattigo.EncoderT.C07.permuteMatrix_ok_upto8
 #print axioms Lattigo.EncoderT.C07.ringQ2T_ringT2Q_level0_coeff
 #print axioms Lattigo.EncoderT.C07.level0_large_t_counterexample
